@@ -121,14 +121,15 @@ def oracle_intprod(ctx, lb, ub, nval, cval):
     sw = new_sw(ctx.fp)
     n = sw.add_variables([0], "n", nval, nval, "integer")
     c = sw.add_variables([0], "c", num(cval), num(cval), "continuous")
-    p = sw.add_variables([0], "p", -10 ** 7, 10 ** 7, "continuous")
+    big = int(ub) * int(ub) + 10
+    p = sw.add_variables([0], "p", -big, big, "continuous")
     sw.add_integer_continuous_product_constraint(n[0], c[0], p[0], num(lb), num(ub), "q")
     r = minmax(sw, p[0])
     want = float(frac(cval)) * nval
     inp = {"helper": "intprod", "lb": qstr(lb), "ub": int(ub), "n": nval, "c": qstr(cval), "minmax": r}
     ctx.rep.cov["oracle_evaluations"] += 1
     for st, v in r:
-        if st != "kOptimal" or abs(v - want) > 1e-6:
+        if st != "kOptimal" or abs(v - want) > 1e-6 * max(1.0, abs(want)):
             ctx.violation(f"integer*continuous helper: n={nval}, c={cval}, ub={ub}: product ranges over {r}, expected exactly {want}",
                           inp, site="add_integer_continuous_product_constraint")
             break
